@@ -326,6 +326,7 @@ def one_case(ctx, rng, wd, force_N=None):
             ctx.skip("sq4")
             return
         acc /= (T - n_t)
+        s4file = os.path.join(wd, "s4.csv") if rng.random() < 0.25 else ""
         prior = bool(rng.random() < 0.4)      # history: another S4 request (other lag, other wave-number range) on the same object first
 
         def s4call():
@@ -336,7 +337,7 @@ def one_case(ctx, rng, wd, force_N=None):
                 except ZeroDivisionError:
                     pass
                 ctx.count("sq4_object_history")
-            return obj.sq4(t=tchar, qrange=qrange, condition=None if cond is None else cond.copy())
+            return obj.sq4(t=tchar, qrange=qrange, condition=None if cond is None else cond.copy(), outputfile=s4file)
         ok4, s4 = ctx.call("Dynamics.sq4", s4call, data=info)
         if ok4:
             good = list(s4.columns) == ["q", "Sq"] and len(s4) == len(uq)
@@ -344,6 +345,11 @@ def one_case(ctx, rng, wd, force_N=None):
                 ctx.close("sq4", s4["q"].values, uq, "Dynamics.sq4/q", rtol=0, atol=1e-7, what="q column", data=info, n=1)
                 ctx.close("sq4", s4["Sq"].values, acc, "Dynamics.sq4/values", rtol=1e-9, atol=0.6e-8, scale=max(1.0, acc.max()),
                           what=f"S4 (lag {n_t} frames, mode {mode})", data=lambda: {**info(), "t": tchar, "qrange": qrange})
+            if s4file:
+                import pandas as pd
+                back = pd.read_csv(s4file)
+                ctx.check("sq4", back.shape == s4.shape and np.allclose(back.values, s4.values, rtol=1e-12, atol=0), "Dynamics.sq4/csv",
+                          "CSV differs from the returned frame", info)
 
 
 def run(ctx):
